@@ -214,9 +214,10 @@ def splitHeader (lines : List Str) : List Str × List Str :=
   let h := lines.takeWhile (fun l => !isEnd l)
   (h ++ (lines.drop h.length).take 1, lines.drop (h.length + 1))
 
-/-- `sat_sys` of the `RINEX VERSION / TYPE` header line (column 40) -/
+/-- `sat_sys` of the `RINEX VERSION / TYPE` header line (column 40); `_parse_string` overwrites `meta` for every such
+line, so the last one of the header counts -/
 def satSys (header : List Str) : Str :=
-  match header.find? (fun l => strip ((rstrip l).drop 60) = "RINEX VERSION / TYPE".toList) with
+  match header.reverse.find? (fun l => strip ((rstrip l).drop 60) = "RINEX VERSION / TYPE".toList) with
   | some l => strip (Text.slice 40 41 (rstrip l))
   | Option.none => []
 
@@ -266,6 +267,9 @@ def timeCorrection (T : Tables) (fileSys : String) (epochs : List Epoch) (d : Co
   let toe ← col d "toe"
   let ttx ← col d "transmission_time"
   let wk ← col d "gnss_week"
+  -- columns of different length (a kept record that lacks orbit lines): `Time(val, val2)` / the NumPy arithmetic of
+  -- the week cross-over refuse arrays of different shape
+  if !(toe.length = sys.length ∧ ttx.length = sys.length ∧ wk.length = sys.length ∧ epochs.length = sys.length) then Option.none
   let offS := fun (s : Cell) => if mixed then lookupI T.secOffset (asString (cellStr s)) else 0
   let offW := fun (s : Cell) => if mixed then lookupI T.weekOffset (asString (cellStr s)) else 0
   let toc : List Rat := (epochs.zip sys).map fun (e, s) => epochSeconds mixed e + offS s
